@@ -62,7 +62,11 @@ class C10(EvalFamProp):
             for n in nodes:
                 if n['kind'] in ('call', 'eval') and n['p'] not in seen:
                     return f'the {n["kind"]} node at {n["p"]!r} survives merging but never ran in a successful build'
+        if 'ok' in cfg and has_leak(cfg['ok']) and not cyc0:
+            return 'a consumer received a lazy placeholder / node object instead of the evaluated object (depends on the order of keys)'
         pc = io['perm']['cfg']
+        if 'ok' in pc and has_leak(pc['ok']) and not cyc0:
+            return 'with permuted keys a consumer received a lazy placeholder / node object instead of the evaluated object'
         cyc = ans and ans[0].get('err') in ('recursion', 'unsupported')
         if not cyc and not (('ok' in cfg and has_leak(cfg['ok'])) or ('ok' in pc and has_leak(pc['ok']))):
             if ('ok' in cfg) != ('ok' in pc):
